@@ -84,6 +84,7 @@ type Unit struct {
 	spawned    []*modSet
 	locks      []lockLoc
 	rangeStack []Term
+	sentinels  map[string]Term
 }
 
 type closure struct {
@@ -123,8 +124,12 @@ func (u *Unit) fail(format string, a ...interface{}) {
 
 // oblige records a proof obligation pc ⊢ goal.
 func (u *Unit) oblige(st *State, name, kind string, props []string, goal Term, pos token.Pos, info string) {
-	if goal.IsTrue() {
-		// still count it: trivially discharged
+	// a conjunction is proved conjunct by conjunct (smaller queries, better diagnostics)
+	if cs := splitAnd(goal); len(cs) > 1 {
+		for _, c := range cs {
+			u.oblige(st, name, kind, props, c, pos, info)
+		}
+		return
 	}
 	if len(props) == 0 {
 		props = u.props
@@ -143,6 +148,24 @@ func (u *Unit) oblige(st *State, name, kind string, props []string, goal Term, p
 	u.obls = append(u.obls, o)
 }
 
+// splitAnd returns the top-level conjuncts of (and a b ...).
+func splitAnd(t Term) []Term {
+	if !strings.HasPrefix(t.S, "(and ") {
+		return []Term{t}
+	}
+	var out []Term
+	i := len("(and ")
+	for i < len(t.S)-1 {
+		j := skipSexp(t.S, i)
+		part := strings.TrimSpace(t.S[i:j])
+		if part != "" {
+			out = append(out, splitAnd(Term{part, SBool})...)
+		}
+		i = j
+	}
+	return out
+}
+
 func (u *Unit) cover(st *State, name string, props []string, pos token.Pos) {
 	if len(props) == 0 {
 		props = u.props
@@ -154,7 +177,7 @@ func (u *Unit) cover(st *State, name string, props []string, pos token.Pos) {
 func newUnit(e *Engine, name string, pkg *packages.Package) *Unit {
 	return &Unit{eng: e, name: name, pkg: pkg, d: NewDecls(), strLits: map[string]Term{}, closures: map[string]*closure{},
 		abstractions: map[string]bool{}, assumptions: map[string]bool{}, stubsUsed: map[string]bool{}, checks: map[string]bool{},
-		nObl: map[string]int{}, ghostLocals: map[string]types.Type{}, entryNames: map[string]Value{}, quantVars: map[string]Value{}}
+		nObl: map[string]int{}, ghostLocals: map[string]types.Type{}, entryNames: map[string]Value{}, quantVars: map[string]Value{}, sentinels: map[string]Term{}}
 }
 
 func defaultChecks(fc *FuncContract) map[string]bool {
